@@ -201,7 +201,7 @@ def _load_helper_mo(lit: LineIterator, n_basis: int, n_mo: int) -> dict:
         "mo_type": np.empty(n_mo, int),
         "mo_energies": np.empty(n_mo, float),
         "mo_occs": np.empty(n_mo, float),
-        "mo_sym": np.empty(n_mo, str),
+        "mo_sym": np.empty(n_mo, object),
         "mo_coeffs": np.empty([n_basis, n_mo], float),
     }
 
@@ -220,6 +220,8 @@ def _load_helper_mo(lit: LineIterator, n_basis: int, n_mo: int) -> dict:
         next(lit)
         data["mo_coeffs"][:, index] = _load_helper_section(lit, n_basis, "", 0, float)
 
+    # An array of strings that are as wide as the longest label.
+    data["mo_sym"] = data["mo_sym"].astype(str)
     return data
 
 
